@@ -7,4 +7,6 @@ pub mod common;
 pub mod engine;
 pub mod gen;
 pub mod model;
+pub mod ops;
+pub mod orbit;
 pub mod props;
